@@ -287,40 +287,72 @@ Theorem C18_tie_Manly_denormalize :
 Proof. exact Manly_denormalize_tie. Qed.
 Print Assumptions C18_tie_Manly_denormalize.
 
+(* the translated range properties (lower, upper; None = infinite bound) equal the model's ranges, for every number type *)
+Theorem C18_tie_BoxCox_denormalize_range :
+  forall (T : Type) (O : NumOps T) (p : npar T), BoxCox_denormalize_range O (lmbda p) = denorm_range O KBoxCox p.
+Proof. exact @BoxCox_denormalize_range_tie. Qed.
+Print Assumptions C18_tie_BoxCox_denormalize_range.
+
+Theorem C18_tie_BoxCoxShift_normalize_range :
+  forall (T : Type) (O : NumOps T) (p : npar T), BoxCoxShift_normalize_range O (shift p) = norm_range O KBoxCoxShift p.
+Proof. exact @BoxCoxShift_normalize_range_tie. Qed.
+Print Assumptions C18_tie_BoxCoxShift_normalize_range.
+
+Theorem C18_tie_BoxCoxShift_denormalize_range :
+  forall (T : Type) (O : NumOps T) (p : npar T), BoxCoxShift_denormalize_range O (lmbda p) = denorm_range O KBoxCoxShift p.
+Proof. exact @BoxCoxShift_denormalize_range_tie. Qed.
+Print Assumptions C18_tie_BoxCoxShift_denormalize_range.
+
+Theorem C18_tie_YeoJohnson_denormalize_range :
+  forall (T : Type) (O : NumOps T) (p : npar T), YeoJohnson_denormalize_range O (lmbda p) = denorm_range O KYeoJohnson p.
+Proof. exact @YeoJohnson_denormalize_range_tie. Qed.
+Print Assumptions C18_tie_YeoJohnson_denormalize_range.
+
+Theorem C18_tie_Modulus_denormalize_range :
+  forall (T : Type) (O : NumOps T) (p : npar T), Modulus_denormalize_range O (lmbda p) = denorm_range O KModulus p.
+Proof. exact @Modulus_denormalize_range_tie. Qed.
+Print Assumptions C18_tie_Modulus_denormalize_range.
+
+Theorem C18_tie_Manly_denormalize_range :
+  forall (T : Type) (O : NumOps T) (p : npar T), Manly_denormalize_range O (lmbda p) = denorm_range O KManly p.
+Proof. exact @Manly_denormalize_range_tie. Qed.
+Print Assumptions C18_tie_Manly_denormalize_range.
+
 (* The central theorems once more, now about the translated source formulas: [src_normalize k p], [src_denormalize k p],
    [src_derivative k p] select, by class, the generated definition instantiated at R with the parameters of p
-   (c18/C18_Tie.v; the parameter-free base class is the identity).  The ranges are those of the hand model (the *_range
-   properties return tuples and are not in the translation table; tied by execution). *)
+   (c18/C18_Tie.v; the parameter-free base class is the identity).  [src_norm_range], [src_denorm_range] select the
+   generated range properties (the plain class attributes (0.0, inf) of LogNormal / BoxCox normalize_range and the
+   default (-inf, inf) are written out in C18_Tie.v and tied by execution). *)
 Theorem C18_src_denorm_norm :
-  forall (k : nkind) (p : npar R) (x : R), in_range Rops (norm_range Rops k p) x = true ->
-    in_range Rops (denorm_range Rops k p) (src_normalize k p x) = true /\
+  forall (k : nkind) (p : npar R) (x : R), in_range Rops (src_norm_range Rops k p) x = true ->
+    in_range Rops (src_denorm_range Rops k p) (src_normalize k p x) = true /\
     src_denormalize k p (src_normalize k p x) = x.
 Proof. exact src_denorm_norm. Qed.
 Print Assumptions C18_src_denorm_norm.
 
 Theorem C18_src_norm_denorm :
-  forall (k : nkind) (p : npar R) (y : R), in_range Rops (denorm_range Rops k p) y = true ->
-    in_range Rops (norm_range Rops k p) (src_denormalize k p y) = true /\
+  forall (k : nkind) (p : npar R) (y : R), in_range Rops (src_denorm_range Rops k p) y = true ->
+    in_range Rops (src_norm_range Rops k p) (src_denormalize k p y) = true /\
     src_normalize k p (src_denormalize k p y) = y.
 Proof. exact src_norm_denorm. Qed.
 Print Assumptions C18_src_norm_denorm.
 
 Theorem C18_src_strictly_increasing :
   forall (k : nkind) (p : npar R) (x1 x2 : R),
-    in_range Rops (norm_range Rops k p) x1 = true -> in_range Rops (norm_range Rops k p) x2 = true ->
+    in_range Rops (src_norm_range Rops k p) x1 = true -> in_range Rops (src_norm_range Rops k p) x2 = true ->
     x1 < x2 -> src_normalize k p x1 < src_normalize k p x2.
 Proof. exact src_strictly_increasing. Qed.
 Print Assumptions C18_src_strictly_increasing.
 
 Theorem C18_src_ranges :
   forall (k : nkind) (p : npar R) (y : R),
-    (exists x, in_range Rops (norm_range Rops k p) x = true /\ src_normalize k p x = y) <->
-    in_range Rops (denorm_range Rops k p) y = true.
+    (exists x, in_range Rops (src_norm_range Rops k p) x = true /\ src_normalize k p x = y) <->
+    in_range Rops (src_denorm_range Rops k p) y = true.
 Proof. exact src_ranges. Qed.
 Print Assumptions C18_src_ranges.
 
 Theorem C18_src_derivative :
-  forall (k : nkind) (p : npar R) (x : R), in_range Rops (norm_range Rops k p) x = true -> exact_branch k p x ->
+  forall (k : nkind) (p : npar R) (x : R), in_range Rops (src_norm_range Rops k p) x = true -> exact_branch k p x ->
     is_derive (src_normalize k p) x (src_derivative k p x).
 Proof. exact src_derivative_exact. Qed.
 Print Assumptions C18_src_derivative.
